@@ -2,7 +2,12 @@
    Model/Conc.v: the pending-IQ table (Router.IQResultRoutes), the result channels, the
    routing goroutines, the canceller and SendIQ as an interleaving model of the FIXED code
    (lookup+delete in one critical section, one-slot buffered result channel, registration
-   before the request is written, canceller/unregister delete only their own entry).
+   before the request is written, canceller/unregister delete only their own entry; only
+   a result/error IQ is looked up among the pending requests, a get/set carrying a pending
+   id is routed like any other packet; SendIQ refuses an id that is still awaiting its
+   response, so an accepted request keeps its own entry until answered or cancelled).
+   An arriving IQ [resp] carries its id, a tag and [rreq] (true: get/set, false:
+   result/error); [result i v] / [request i v] build the two kinds.
    One [act] is one atomic step of one goroutine; every theorem below is for EVERY
    schedule [l : list act] from the initial state: any number of concurrent requests with
    distinct or clashing ids, matching / duplicate / foreign responses, receivers reading or
@@ -44,7 +49,7 @@ Proof. exact reach_closed_final. Qed.
 Theorem C07_right_owner : forall l,
   let s := c_run c_init l in
   forall c ch v, nth_error (chans s) c = Some ch ->
-    (c_buf ch = Some v \/ In v (c_got ch)) -> fst v = c_owner ch.
+    (c_buf ch = Some v \/ In v (c_got ch)) -> rid v = c_owner ch.
 Proof. exact reach_right_owner. Qed.
 
 (* packet processing never hangs: in every reachable state every routing goroutine's next
@@ -85,30 +90,32 @@ Theorem C07_early_response : forall l i v c,
   lookup i (table s) = Some c ->
   (forall ch, nth_error (chans s) c = Some ch -> c_done ch = false) ->
   let k := length (routers s) in
-  let s' := c_run s [AArrive (i, v); ARouter k; ARouter k; ARouter k] in
+  let s' := c_run s [AArrive (result i v); ARouter k; ARouter k; ARouter k] in
   (exists ch', nth_error (chans s') c = Some ch' /\ c_owner ch' = i /\ c_closed ch' = true /\
-               c_buf ch' = Some (i, v) /\ c_got ch' = []) /\
+               c_buf ch' = Some (result i v) /\ c_got ch' = []) /\
   (forall d, d <> c -> nth_error (chans s') d = nth_error (chans s) d) /\
   lookup i (table s') = None /\ ordinary s' = ordinary s /\
-  nth_error (routers s') k = Some {| r_iq := (i, v); r_pc := RDone |}.
+  nth_error (routers s') k = Some {| r_iq := (result i v); r_pc := RDone |}.
 Proof. exact reach_early_response. Qed.
 
 (* ... and the entry IS present from registration on: the fixed SendIQ registers (ARegister)
    BEFORE it writes the request, so "immediately after the request was written" is any
-   point after ARegister by construction.  After ARegister i, whatever schedule l follows
-   that contains no cancellation / unregistration of that channel, no clashing
-   registration of i and no other response with id i being taken ([untouched]), a response
-   (i, v) arriving at any later point is delivered on that channel. *)
+   point after ARegister by construction.  After an accepted ARegister i (id i not awaiting
+   a response), whatever schedule l follows that contains no cancellation / unregistration
+   of that channel and no other RESPONSE with id i being taken ([untouched]: clashing
+   registrations of i and requests carrying id i are allowed - they change nothing), a
+   response (result i v) arriving at any later point is delivered on that channel. *)
 Theorem C07_early_response_any_time : forall l0 i l v,
   let s0 := c_run c_init l0 in
+  live s0 i = false ->
   let c := length (chans s0) in
   let s1 := c_step s0 (ARegister i) in
   untouched s1 i c l = true ->
   let s := c_run s1 l in
   let k := length (routers s) in
-  let s' := c_run s [AArrive (i, v); ARouter k; ARouter k; ARouter k] in
+  let s' := c_run s [AArrive (result i v); ARouter k; ARouter k; ARouter k] in
   exists ch', nth_error (chans s') c = Some ch' /\ c_owner ch' = i /\ c_closed ch' = true /\
-              c_buf ch' = Some (i, v) /\ c_got ch' = [] /\
+              c_buf ch' = Some (result i v) /\ c_got ch' = [] /\
               lookup i (table s') = None /\ ordinary s' = ordinary s.
 Proof. exact reach_early_response_any_time. Qed.
 
@@ -120,12 +127,12 @@ Theorem C07_cancel_then_ordinary : forall l i v c,
   lookup i (table s) = Some c ->
   (forall ch, nth_error (chans s) c = Some ch -> c_done ch = true) ->
   let k := length (routers s) in
-  let s' := c_run s [AArrive (i, v); ARouter k; ARouter k; ARouter k] in
+  let s' := c_run s [AArrive (result i v); ARouter k; ARouter k; ARouter k] in
   (exists ch', nth_error (chans s') c = Some ch' /\ c_closed ch' = true /\
                c_buf ch' = None /\ c_got ch' = []) /\
   (forall d, d <> c -> nth_error (chans s') d = nth_error (chans s) d) /\
-  lookup i (table s') = None /\ ordinary s' = ordinary s ++ [(i, v)] /\
-  nth_error (routers s') k = Some {| r_iq := (i, v); r_pc := RDone |}.
+  lookup i (table s') = None /\ ordinary s' = ordinary s ++ [(result i v)] /\
+  nth_error (routers s') k = Some {| r_iq := (result i v); r_pc := RDone |}.
 Proof. exact reach_cancelled_response. Qed.
 
 (* ... and if the entry is gone (removed by the canceller, answered before = duplicate or
@@ -134,42 +141,98 @@ Proof. exact reach_cancelled_response. Qed.
 Theorem C07_unmatched_then_ordinary : forall s i v,
   lookup i (table s) = None ->
   let k := length (routers s) in
-  let s' := c_run s [AArrive (i, v); ARouter k; ARouter k] in
-  chans s' = chans s /\ table s' = table s /\ ordinary s' = ordinary s ++ [(i, v)] /\
-  nth_error (routers s') k = Some {| r_iq := (i, v); r_pc := RDone |}.
+  let s' := c_run s [AArrive (result i v); ARouter k; ARouter k] in
+  chans s' = chans s /\ table s' = table s /\ ordinary s' = ordinary s ++ [(result i v)] /\
+  nth_error (routers s') k = Some {| r_iq := (result i v); r_pc := RDone |}.
 Proof. exact unmatched_response. Qed.
+
+(* a request (get/set) is never taken for a response: nothing in or read from any channel is
+   a request, and a goroutine routing a request never owns a pending request's channel *)
+Theorem C07_request_never_delivered : forall l,
+  let s := c_run c_init l in
+  (forall c ch v, nth_error (chans s) c = Some ch -> (c_buf ch = Some v \/ In v (c_got ch)) -> rreq v = false) /\
+  (forall k t, nth_error (routers s) k = Some t -> rreq (r_iq t) = true ->
+     r_pc t = RStart \/ r_pc t = ROrd \/ r_pc t = RDone).
+Proof. exact reach_only_responses. Qed.
+
+(* a request with a clashing id (or any id) goes to the ordinary routes, once; the pending
+   table and every channel are left alone.  Holds in any state, whatever is pending. *)
+Theorem C07_request_routed_ordinarily : forall s i v,
+  let k := length (routers s) in
+  let s' := c_run s [AArrive (request i v); ARouter k; ARouter k] in
+  chans s' = chans s /\ table s' = table s /\ ordinary s' = ordinary s ++ [request i v] /\
+  nth_error (routers s') k = Some {| r_iq := request i v; r_pc := RDone |}.
+Proof. exact request_routed. Qed.
+
+(* clashing ids: a SendIQ whose id is still awaiting its response is refused - nothing is
+   registered, routed or written, the request's slot never receives anything and is never
+   closed (the caller got an error instead of a channel) ... *)
+Theorem C07_clashing_id_refused : forall l i c,
+  let s := c_run c_init l in
+  lookup i (table s) = Some c ->
+  (forall ch, nth_error (chans s) c = Some ch -> c_done ch = false) ->
+  let s' := c_step s (ARegister i) in
+  table s' = table s /\ routers s' = routers s /\ ordinary s' = ordinary s /\ arrived s' = arrived s /\
+  chans s' = chans s ++ [new_chan i] /\ refused s' = refused s ++ [length (chans s)] /\
+  forall l', let s'' := c_run s' l' in
+    exists ch, nth_error (chans s'') (length (chans s)) = Some ch /\
+               c_buf ch = None /\ c_got ch = [] /\ c_closed ch = false.
+Proof. exact reach_refused. Qed.
+
+Theorem C07_refused_slots_inert : forall l,
+  let s := c_run c_init l in
+  forall c, In c (refused s) ->
+    (exists ch, nth_error (chans s) c = Some ch /\ c_buf ch = None /\ c_got ch = [] /\ c_closed ch = false) /\
+    ~ In c (map snd (table s)).
+Proof. exact reach_refused_inert. Qed.
+
+(* ... and the earlier request keeps its entry: neither a registration (of any id) nor a
+   routing step on a request (get/set, any id) ends the pending state of request (i, c).
+   "Never to another request": the entry under id i is the one of the accepted request. *)
+Theorem C07_pending_kept : forall l i c a,
+  let s := c_run c_init l in
+  pending s i c ->
+  (exists j, a = ARegister j) \/
+  (exists k t, a = ARouter k /\ nth_error (routers s) k = Some t /\ rreq (r_iq t) = true) ->
+  pending (c_step s a) i c.
+Proof. exact reach_pending_kept. Qed.
 
 (* the invariant behind all of the above holds along every schedule *)
 Theorem C07_invariant : forall l, inv (c_run c_init l).
 Proof. exact inv_reachable. Qed.
 
-(* Three requests, two with the clashing id 1 (the second registration replaces the first);
-   response (1,10) arrives twice, a second answer (1,11) with the same id and a foreign
-   (9,12) arrive concurrently; request 2 is cancelled while its answer (2,13) is in flight;
-   the first id-1 request is cancelled after having been replaced.  Channel 2 gets exactly
-   (1,10) and is closed; channel 1 is closed empty; everything else goes to the ordinary
-   routes once; nothing panics, all routing goroutines finish. *)
+(* Four SendIQ calls: ids 1, 2, then 1 again while the first is pending (refused: slot 2 stays
+   empty, the first request keeps id 1), later 1 again after the answer (accepted: slot 3).
+   A get with the clashing id 1 arrives before the answer: ordinary routes, the entry stays.
+   Response (1,10) arrives twice, a second answer (1,11) with the same id and a foreign (9,12)
+   arrive concurrently; request 2 is cancelled while its answer (2,13) is in flight.
+   Slot 0 gets exactly result 1 10 and is closed; slot 1 is closed empty; slot 3 gets the
+   later answer (1,14); everything else goes to the ordinary routes once; nothing panics. *)
 Local Open Scope N_scope.
 Example C07_example :
   let s := c_run c_init
     [ARegister 1; ARegister 2; ARegister 1;
-     AArrive (1, 10); AArrive (1, 11); AArrive (9, 12);
-     ARouter 0; ARouter 1; ARouter 0; ARouter 2; ARouter 1; ARouter 0; ARecv 2; ARouter 2;
-     ACancel 1; AArrive (2, 13); ARouter 3; ACancelDelete 1; ARouter 3; ARouter 3;
-     ACancel 0; ACancelDelete 0;
-     AArrive (1, 10); ARouter 4; ARouter 4; ARecv 2; ARecv 1] in
+     AArrive (request 1 7); ARouter 0; ARouter 0;
+     AArrive (result 1 10); AArrive (result 1 11); AArrive (result 9 12);
+     ARouter 1; ARouter 2; ARouter 1; ARouter 3; ARouter 2; ARouter 1; ARecv 0; ARouter 3;
+     ACancel 1; AArrive (result 2 13); ARouter 4; ACancelDelete 1; ARouter 4; ARouter 4;
+     AArrive (result 1 10); ARouter 5; ARouter 5;
+     ARegister 1; AArrive (result 1 14); ARouter 6; ARouter 6; ARouter 6; ARecv 3; ARecv 2] in
   (panicked s, map (fun ch => (c_owner ch, c_got ch, c_buf ch, c_closed ch)) (chans s),
-   ordinary s, table s, map r_pc (routers s), in_flight s)
+   ordinary s, table s, refused s, map r_pc (routers s), in_flight s)
   = (false,
-     [(1, [], None, false); (2, [], None, true); (1, [(1, 10)], None, true)],
-     [(1, 11); (9, 12); (2, 13); (1, 10)], [], [RDone; RDone; RDone; RDone; RDone], []).
+     [(1, [result 1 10], None, true); (2, [], None, true); (1, [], None, false); (1, [result 1 14], None, true)],
+     [request 1 7; result 1 11; result 9 12; result 2 13; result 1 10], [], [2%nat],
+     [RDone; RDone; RDone; RDone; RDone; RDone; RDone], []).
 Proof. vm_compute. reflexivity. Qed.
 
 (* the hypothesis of C07_early_response_any_time is satisfiable by a non-trivial schedule:
-   other requests, a foreign response, a cancellation of another request in between *)
+   other requests, a clashing registration, a clashing get, a foreign response, a
+   cancellation of another request in between *)
 Example C07_untouched_example :
   untouched (c_step c_init (ARegister 1)) 1 0%nat
-    [ARegister 2; AArrive (9, 12); ARouter 0; ACancel 1; AArrive (2, 13); ARouter 1; ARouter 0; ARecv 0] = true.
+    [ARegister 2; ARegister 1; AArrive (request 1 7); AArrive (result 9 12); ARouter 0; ARouter 1; ACancel 1;
+     AArrive (result 2 13); ARouter 2; ARouter 0; ARecv 0] = true.
 Proof. vm_compute. reflexivity. Qed.
 
 Print Assumptions C07_no_panic.
@@ -185,3 +248,8 @@ Print Assumptions C07_early_response_any_time.
 Print Assumptions C07_cancel_then_ordinary.
 Print Assumptions C07_unmatched_then_ordinary.
 Print Assumptions C07_invariant.
+Print Assumptions C07_request_never_delivered.
+Print Assumptions C07_request_routed_ordinarily.
+Print Assumptions C07_clashing_id_refused.
+Print Assumptions C07_refused_slots_inert.
+Print Assumptions C07_pending_kept.
